@@ -122,7 +122,7 @@ def run(ctx, scale=1):
     ctx.extra['rule'] = ('all 343 ordered type triples cycled; the three operands are placed relative to one lattice frame (flats in the 5 modes of C01, polygons often in the frame plane, '
                          'polyhedra translated to contain the frame point) so that the triple intersection is frequently non-empty and intermediate results are non-lattice rationals; per triple: '
                          'both nestings, intersection(a,a)==a, a in b => intersection(a,b)==a, vertices of intersection(a,b) in both; non-trivial = non-empty triple intersection')
-    ctx.extra['unproved'] = ['self / subset / associativity for polygon and polyhedron operands need kernels K2-K5 (decided per run against exact vertex enumeration)']
+    ctx.extra['unproved'] = ['triples containing a direct polyhedron × polyhedron call need kernel K4 (decided per run against exact vertex enumeration); all other triples are proved']
     total = ctx.n(1715, 60000) * scale
     recs = []
     for part in core.pmap(work, core.chunks(ctx, total, per=49)):
